@@ -20,6 +20,8 @@ def canon(s):
         return " ".join(t[:2] + t[3:])
     if t[0] == "cerr" and len(t) >= 3:
         return " ".join(t[:2])
+    if t[0].startswith("code=") and "rterr" in t:
+        return " ".join(t[: t.index("rterr") + 1])
     return s
 
 
@@ -33,7 +35,58 @@ def classify(c):
 
 
 def model_skip(c):
+    if c.line.startswith("core "):
+        # `last` (a stale stack slot) is not part of the model's output: compare the rest
+        a = [x for x in c.impl.split(" ") if not x.startswith("last=")]
+        b = [x for x in c.model.split(" ") if not x.startswith("last=")]
+        return a == b
     return not c.line.startswith("vmrun ")
+
+
+def core_expr(rng, names, depth):
+    """an expression of the core fragment (lean/P2sh/Core): literals, unary, binary, && ||, if/else, globals"""
+    if depth <= 0 or rng.random() < 0.25:
+        r = rng.random()
+        if r < 0.45:
+            return str(rng.choice([0, 1, 2, 3, 7, 63, 64, 255, 9223372036854775807]))
+        if r < 0.6 and names:
+            return rng.choice(names)
+        return rng.choice(["true", "false", "null", "'c'", "1.5", "b'a'", '""'])
+    r = rng.random()
+    a = lambda: core_expr(rng, names, depth - 1)
+    if r < 0.4:
+        op = rng.choice(["+", "-", "*", "/", "%", "==", "!=", ">", ">=", "<", "<=", "&", "|", "^", "<<", ">>"])
+        return f"({a()} {op} {a()})"
+    if r < 0.55:
+        return f"({a()} {rng.choice(['&&', '||'])} {a()})"
+    if r < 0.67:
+        return f"({rng.choice(['!', '-', '~'])}{a()})"
+    if r < 0.85:
+        form = rng.random()
+        if form < 0.6:
+            return f"if {a()} {{ {a()} }} else {{ {a()} }}"
+        if form < 0.8:
+            return f"if {a()} {{ {a()} }}"
+        if form < 0.9:
+            return f"if {a()} {{ }} else {{ {a()} }}"
+        return f"if {a()} {{ {a()} }} else if {a()} {{ {a()} }} else {{ {a()} }}"
+    if names:
+        return f"({rng.choice(names)} = {a()})"
+    return a()
+
+
+def core_program(rng):
+    names, lines = [], []
+    for _ in range(rng.randint(1, 6)):
+        if rng.random() < 0.6 or not names:
+            n = rng.choice(["x", "y", "z", "w"])
+            lines.append(f"let {n} = {core_expr(rng, names, 3)};")
+            if n not in names:
+                names.append(n)
+        else:
+            lines.append(f"{core_expr(rng, names, 3)};")
+    lines.append(core_expr(rng, names, 3))
+    return "\n".join(lines) + "\n"
 
 
 def sources(ctx):
@@ -59,6 +112,11 @@ def cases(ctx):
     # the VM model on the real compiler's bytecode (correspondence of the VM model)
     vl = vmrun_lines(ctx, srcs)
     out += [Case(l, ("vm-" + t,), extra={"src": s}) for l, t, s in zip(vl, tags, srcs)]
+    # the core fragment: the functional compiler model must equal the real compiler byte for byte,
+    # its machine the real VM, and both the reference evaluation (theorem compile_correct)
+    csrcs = [core_program(ctx.rng) for _ in range(ctx.scale(3000, 150000))]
+    cl = lang_lines(ctx, csrcs, op="core")
+    out += [Case(l, ("core",), extra={"src": s}) for l, s in zip(cl, csrcs)]
     return out
 
 
